@@ -137,6 +137,15 @@ WriteNegative(n) ==
     /\ outcome' = "refused"
     /\ UNCHANGED <<bits, layout, stage, rpos, ridx, reads>>
 
+(* the same for an overwrite in place: 2^n, -1 or -2^(n-1) offered for the i-th field (an unsigned one) is refused - in
+   particular a negative number is not written in two's complement - and the stream stays as it is *)
+SetRefused(i, kind) ==
+    /\ stage = "fields" /\ "set" \in Kinds
+    /\ i \in 1..Len(layout) /\ layout[i].typ = "uint"
+    /\ ops' = Append(ops, [Op(kind, "f", layout[i].n, <<1>>, Len(bits)) EXCEPT !.at = layout[i].start])
+    /\ outcome' = "refused"
+    /\ UNCHANGED <<bits, layout, stage, rpos, ridx, reads>>
+
 (* a signed value whose magnitude does not fit n-1 bits is refused; the specification says
    nothing about the stream afterwards (the sign bit may already have been appended), so
    the behaviour ends here *)
@@ -206,6 +215,7 @@ FieldStep ==
     \/ \E n \in {1, 8, 13} : Skip(n)
     \/ \E i \in 1..Len(layout) : \E v \in ClassPatterns(IF layout[i].typ = "uint" THEN layout[i].n ELSE 1) : SetUint(i, v)
     \/ \E n \in Widths : WriteTooBig(n) \/ WriteNegative(n)
+    \/ \E i \in 1..Len(layout) : \E kind \in {"set_uint_overflow", "set_uint_negative", "set_uint_negative_half"} : SetRefused(i, kind)
     \/ \E n \in Widths, sign \in Bit, c \in {2, 3, 4} : WriteIntTooBig(n, sign, c)
 
 Next ==
@@ -252,7 +262,7 @@ SetUintTouchesOnlyItsBits ==
                  /\ \A j \in 1..Len(bits) : (j <= o.at \/ j > o.at + o.n) => bits'[j] = bits[j]
                  /\ Slice(bits', o.at + 1, o.n) = o.v]_vars
 
-IsRefusal == Len(ops') = Len(ops) + 1 /\ ops'[Len(ops')].op \in {"write_uint_overflow", "write_uint_negative"}
+IsRefusal == Len(ops') = Len(ops) + 1 /\ ops'[Len(ops')].op \in {"write_uint_overflow", "write_uint_negative", "set_uint_overflow", "set_uint_negative", "set_uint_negative_half"}
 RefusedWritesNothing ==
     [][IsRefusal => (bits' = bits /\ layout' = layout /\ outcome' = "refused")]_vars
 
